@@ -397,3 +397,6 @@ mod test {
         }
     }
 }
+
+#[cfg(kani)]
+include!(concat!(env!("TOML_VERIF_KANI"), "/toml_edit/parser_numbers.rs"));
